@@ -248,7 +248,7 @@ def gen_val_cases(rng, quick):
             for t in (0, 1):
                 cases.append({"kind": "val", "applied": applied, "removed": removed, "t": t, "m": None})
     if quick:
-        cases = rng.sample(cases, 2500)
+        cases = rng.sample(cases, 1500)
     # a removed member (id 6) asking to join again under a fresh id with its old name/address/peer id:
     # this is what Cluster.ChangeMembership produces (NewMemberFromAddReq derives the id from the
     # current time), and it is accepted: the refusal of removed members is by raft id only
@@ -286,6 +286,39 @@ def gen_en_cases(rng, quick):
         progs = [[1, 1, lastx], [2, 1, 0], [3, 1, max(lastx - 1, 0)]]
         for t, nid in [(0, 0), (1, 2), (1, 3)]:
             cases.append({"kind": "en", "sid": 1, "leader": True, "self": 1, "last": lastx, "gap": gap, "progs": progs, "t": t, "nid": nid})
+    return cases
+
+
+def gen_seq_cases(rng, quick):
+    """request sequences against the real addMember/removeMember: fresh adds, adds duplicating one attribute of an
+    applied member, re-adds of removed ids, removes of applied / unknown / removed ids, invalid members"""
+    cases = []
+    for _ in range(150 if quick else 2500):
+        k = rng.randrange(0, 4)
+        applied = {i: member(i) for i in range(1, k + 1)}
+        removed = set()
+        reqs = []
+        for _ in range(rng.randrange(6, 14)):
+            r = rng.random()
+            pool = [i for i in range(1, 7)]
+            if r < 0.3:
+                j = rng.choice(pool)
+                reqs.append([0] + member(j))
+            elif r < 0.45 and applied:
+                j = rng.choice([i for i in pool if i not in applied] or pool)
+                m = member(j)
+                m[rng.randrange(1, 4)] = rng.choice(list(applied))      # duplicate name, address or peer id
+                reqs.append([0] + m)
+            elif r < 0.55:
+                j = rng.choice(pool)
+                m = member(j)
+                m[rng.randrange(1, 4)] = 0                              # empty attribute: invalid member
+                reqs.append([0] + m)
+            elif r < 0.9:
+                reqs.append([1] + member(rng.choice(pool)))
+            else:
+                reqs.append([rng.choice([2, 3])] + member(rng.choice(pool)))
+        cases.append({"kind": "seq", "applied": [member(i) for i in range(1, k + 1)], "reqs": reqs})
     return cases
 
 
@@ -347,7 +380,7 @@ def run(ctx):
                     g.spec, g.last, g.hs, g.snap, g.ident = {}, op[2], (op[1], 0, op[2]), (op[2], op[1], 0), None
             g.name = f
             corpus.append(g)
-    nw, nwild = (60, 25) if quick else (1500, 600)
+    nw, nwild = (45, 20) if quick else (1500, 600)
     for i in range(nw + nwild):
         g = WalGen(rng, i >= nw)
         ln = rng.randrange(4, 30) if i % 9 else 60
@@ -362,7 +395,8 @@ def run(ctx):
     wal_cases = [{"kind": "wal", "maxi": MAXI, "blocks": BLOCKS, "ccids": CCIDS, "ops": g.ops} for g in corpus + gens]
     val_cases = gen_val_cases(rng, quick)
     en_cases = gen_en_cases(rng, quick)
-    allc = wal_cases + val_cases + en_cases
+    seq_cases = gen_seq_cases(rng, quick)
+    allc = wal_cases + val_cases + en_cases + seq_cases
     fin = os.path.join(ctx.workdir, "c16.in")
     fout = os.path.join(ctx.workdir, "c16.out")
     with open(fin, "w") as f:
@@ -376,7 +410,8 @@ def run(ctx):
         raise RuntimeError("C16 engine: %d results for %d cases" % (len(res), len(allc)))
     wres = res[: len(wal_cases)]
     vres = res[len(wal_cases): len(wal_cases) + len(val_cases)]
-    eres = res[len(wal_cases) + len(val_cases):]
+    eres = res[len(wal_cases) + len(val_cases): len(wal_cases) + len(val_cases) + len(en_cases)]
+    sres = res[len(wal_cases) + len(val_cases) + len(en_cases):]
 
     pred_fail = []
     stale_inv = 0
@@ -469,6 +504,26 @@ def run(ctx):
                         pred_fail.append(("C16:quorum", "removal of a healthy node accepted although the remaining healthy nodes lose quorum",
                                           {"case": c, "states": stt}))
 
+    for c, r in zip(seq_cases, sres):
+        attrs = {m[0]: m for m in c["applied"]}
+        removed_seen = set()
+        for si, (rq, st) in enumerate(zip(c["reqs"], r["steps"])):
+            ap, rm = set(st["applied"]), set(st["removed"])
+            if st["code"] == 0 and rq[0] == 0:
+                attrs[rq[1]] = rq[1:]
+            if ap & rm:
+                pred_fail.append(("C16:removed-is-member", "a removed member id is an applied member again", {"case": c, "step": si, "obs": st}))
+                break
+            if not removed_seen <= rm:
+                pred_fail.append(("C16:removed-forgotten", "a removed member id disappeared from the removed set", {"case": c, "step": si, "obs": st}))
+                break
+            removed_seen = rm
+            ms = [attrs[i] for i in ap if i in attrs]
+            if len(ms) != len(ap) or any(len({m[f] for m in ms}) != len(ms) for f in (1, 2, 3)):
+                pred_fail.append(("C16:duplicate-members", "two applied members share a name, address or peer id (or an unknown id is applied)",
+                                  {"case": c, "step": si, "obs": st}))
+                break
+
     # ---- model / implementation correspondence
     corr_broken = None
     hdr = ["From Coq Require Import ZArith NArith List Bool.", "From Verif Require Import RaftWal.Wal RaftWal.Membership.",
@@ -547,8 +602,31 @@ def run(ctx):
             c["sid"], B(c["leader"]), c["self"], c["last"], c["gap"],
             ";".join("mk_prog %d %d %d" % tuple(p) for p in c["progs"]), c["t"], c["nid"], r["code"],
             ";".join(str(x) for x in r["states"])))
+    sitems = []
+    for c, r in zip(seq_cases, sres):
+        steps = []
+        for rq, st in zip(c["reqs"], r["steps"]):
+            con = "RAdd" if rq[0] == 0 else "RRemove"
+            if rq[0] > 1:
+                continue        # other request types are covered by the validate family (model requests are add/remove)
+            steps.append("(%s (%s), %d, [%s], [%s])" % (con, coq_member(rq[1:]), st["code"], ";".join(map(str, st["applied"])),
+                                                       ";".join(map(str, st["removed"]))))
+        sitems.append("([%s], [%s])" % (";".join(coq_member(a) for a in c["applied"]), ";\n ".join(steps)))
+    bad_s = []
+
+    def seq_shard(s):
+        txt = hdr + ["Definition scases : list scase := [%s]." % ";\n".join(sitems[s: s + 400]),
+                     "Definition MS := Eval vm_compute in mismatches_from scase_ok scases 0.", "Print MS."]
+        rc, out = ctx.coq_eval("c16_seq_%d" % s, "\n".join(txt))
+        flat = " ".join(out.split())
+        ms = re.search(r"MS = (\[.*?\]|nil)\s*:", flat)
+        if rc != 0 or not ms:
+            return None, ("membership sequence correspondence could not be evaluated", out[-2500:])
+        return [s + int(x) for x in re.findall(r"\d+", ms.group(1))], None
+
     bad_v, bad_e = [], []
     with ThreadPoolExecutor(max_workers=6) as pool:
+        fs = [pool.submit(seq_shard, s) for s in range(0, len(sitems), 400)]
         fw = [pool.submit(wal_shard, s) for s in range(0, len(items), SH)]
         fm = [pool.submit(mem_shard, s) for s in range(0, max(len(vitems), len(eitems)), SHM)]
         for f in fw:
@@ -564,6 +642,15 @@ def run(ctx):
             else:
                 bad_v += r[0]
                 bad_e += r[1]
+        for f in fs:
+            r, err = f.result()
+            if r is None:
+                corr_broken = corr_broken or err
+            else:
+                bad_s += r
+    if bad_s and not corr_broken:
+        corr_broken = ("model/implementation differ on %d membership request sequences" % len(bad_s),
+                       [dict(case=seq_cases[i], impl=sres[i]) for i in bad_s[:3]])
     if bad_w and not corr_broken:
         allg = corpus + gens
         bad_w.sort(key=lambda x: (len(allg[x[0]].ops), x[1]))
@@ -578,8 +665,9 @@ def run(ctx):
                        [dict(case=en_cases[i], impl=eres[i]) for i in bad_e[:4]])
 
     # ---- evidence
-    ctx.cov["evaluations"] = steps_total + len(val_cases) + len(en_cases)
-    ctx.cov["traces_validated_against_impl"] = len(wal_cases) + len(val_cases) + len(en_cases)
+    seq_steps = sum(len(c["reqs"]) for c in seq_cases)
+    ctx.cov["evaluations"] = steps_total + len(val_cases) + len(en_cases) + seq_steps
+    ctx.cov["traces_validated_against_impl"] = len(wal_cases) + len(val_cases) + len(en_cases) + len(seq_cases)
     kinds = {}
     trunc = {"append": 0, "overwrite_shorter": 0, "overwrite_equal": 0, "overwrite_longer": 0, "ill_formed": 0}
     for g in gens:
@@ -618,7 +706,9 @@ def run(ctx):
                                      "validate_cases": len(val_cases), "validate_result_codes": vcodes,
                                      "validate_family": "applied = first k of 5 members (k=0..5) x removed in {[],[6],[7],[6,7]} x candidate id/name/"
                                                         "address/peer from {empty, duplicate of first, duplicate of last, removed id, fresh, invalid address} x "
-                                                        "{add, remove, other}" + (" (2500 sampled)" if quick else " (complete)"),
+                                                        "{add, remove, other}" + (" (1500 sampled)" if quick else " (complete)"),
+                                     "request_sequences": len(seq_cases), "request_sequence_steps": seq_steps,
+                                     "request_sequence_accepted": sum(1 for r in sres for st in r["steps"] if st["code"] == 0),
                                      "enable_cases": len(en_cases), "enable_result_codes": ecodes,
                                      "enable_family": "all progress vectors over {healthy, probe, slow by gap, syncing} for 1..5 nodes (complete) x "
                                                       "{add, remove each node, remove unknown, other type} + non-leader / uninitialised / gap boundaries"}
